@@ -353,6 +353,7 @@ pub fn run(args: &Args) {
         let r = run_input(&ctx, &v["input"]);
         report.case(Some(&v["input"].to_string()), &["replay"]);
         report.case(Some("replay-marker"), &[]);
+        report.sample("replay", 1, || v["input"].clone());
         if let Err(f) = r {
             report.violation("replay", &f, v["input"].clone());
         }
